@@ -158,6 +158,7 @@ async def watcher(
     # In case of a failed worker, stop the watcher, and escalate to the operator to stop it.
     watcher_task = asyncio.current_task()
     worker_error: BaseException | None = None
+    worker_error_raised = False
     def exception_handler(exc: BaseException) -> None:
         nonlocal worker_error, watcher_task
         if worker_error is None:
@@ -234,6 +235,7 @@ async def watcher(
         if worker_error is None:
             raise
         else:
+            worker_error_raised = True
             raise RuntimeError("Event processing has failed with an unrecoverable error. "
                                "This seems to be a framework bug. "
                                "The operator will stop to prevent damage.") from worker_error
@@ -256,6 +258,14 @@ async def watcher(
         while not closing_task.done():
             with contextlib.suppress(asyncio.CancelledError):
                 await asyncio.shield(closing_task)
+
+        # A worker can also fail while the workers are being depleted here (e.g. on the operator's exit):
+        # the watcher is not in the stream anymore, so the cancellation by the worker is suppressed above.
+        # Escalate such errors too instead of only logging them, so that the operator fails as promised.
+        if worker_error is not None and not worker_error_raised:
+            raise RuntimeError("Event processing has failed with an unrecoverable error. "
+                               "This seems to be a framework bug. "
+                               "The operator will stop to prevent damage.") from worker_error
 
 
 async def worker(
